@@ -24,7 +24,7 @@ func verifPushState(s *Server) []*verifCall {
 	assume(s.callID >= 1 && s.callID < 1<<40)
 	maxc := 3
 	if thorough() {
-		maxc = 4
+		maxc = 5
 	}
 	n := nondetChoice("ncalls", maxc)
 	for i := 0; i < n; i++ {
@@ -158,7 +158,7 @@ func Harness_C09_step() {
 	case 2: // the reader filters an inbound batch
 		maxb := 2
 		if thorough() {
-			maxb = 3
+			maxb = 4
 		}
 		n := 1 + nondetChoice("n", maxb)
 		var batch jmessages
